@@ -413,7 +413,7 @@ impl<const N: u32> PxE1<{ N }> {
                 }
             } else if k == (N - 5) {
                 ui_a = (0x7FFFFFFF ^ (0x3FFFFFFF >> k)) | (exp_a << (27 - k));
-                let mask = 0x8 << (k - N);
+                let mask = 0x8 << (k + 32 - N);
                 if (mask & frac_a) != 0 {
                     //bitNPlusOne
                     if (((mask - 1) & frac_a) | (exp_a & 0x1)) != 0 {
@@ -424,7 +424,7 @@ impl<const N: u32> PxE1<{ N }> {
                 ui_a =
                     ((0x7FFFFFFFu32 ^ (0x3FFFFFFF >> k)) | (exp_a << (27 - k)) | frac_a >> (k + 4))
                         & Self::mask();
-                let mask = 0x8 << (k - N); //bitNPlusOne
+                let mask = 0x8 << (k + 32 - N); //bitNPlusOne
                 if (mask & frac_a) != 0 && (((mask - 1) & frac_a) | ((mask << 1) & frac_a)) != 0 {
                     ui_a += 0x80000000_u32 >> (N - 1);
                 }
